@@ -148,9 +148,12 @@ def lower_bound(dist):
     return 0.5 if dist == "chi2" else 0.0
 
 
-def tol(dist, ref, slack=0.0):
-    """Comparison tolerance of DESIGN.md 3.2: relative 1e-9 plus the reference's own slack."""
-    return 1e-9 * max(1.0, abs(ref)) + slack
+def tol(dist, ref, slack=0.0, scale=None):
+    """Comparison tolerance of DESIGN.md 3.2: relative 1e-9 plus the reference's own slack.  For the geometric GEMINIs `scale` is the
+    natural magnitude of the score (sqrt of the kernel magnitude for MMD, the distance magnitude for Wasserstein) so that affinities of
+    magnitude 1e-10 are not compared with an absolute 1e-9."""
+    unit = 1.0 if scale is None else min(1.0, scale)
+    return 1e-9 * max(unit, abs(ref)) + slack
 
 
 # ------------------------------------------------------------------ menus of prediction rows
